@@ -16,6 +16,7 @@ import json
 import multiprocessing
 import os
 import shutil
+import sys
 import time
 from typing import Any, Callable, Iterable, Iterator, Optional
 
@@ -126,12 +127,30 @@ class Acc:
 _SHARD_FN: Optional[Callable[[Any], Acc]] = None
 
 
+_FUNCCOV: set = set()
+
+
+def _funccov_profile(frame, event, arg):      # audit aid (tools/api_coverage.py), never active in registered commands
+    if event == 'call':
+        co = frame.f_code
+        fn = co.co_filename
+        if '/srctools/' in fn:
+            _FUNCCOV.add((fn[fn.index('/srctools/') + 10:], co.co_firstlineno, co.co_qualname if hasattr(co, 'co_qualname') else co.co_name))
+
+
 def _run_shard(shard: Any) -> Acc:
     assert _SHARD_FN is not None
     import gc
+    cov = os.environ.get('VERIF_FUNCCOV')
+    if cov:
+        sys.setprofile(_funccov_profile)
     try:
         return _SHARD_FN(shard)
     finally:
+        if cov:
+            sys.setprofile(None)
+            with open(f'{cov}.{os.getpid()}', 'w') as f:
+                json.dump(sorted(_FUNCCOV), f)
         gc.collect()
 
 
